@@ -1,1 +1,157 @@
-//! Harness contracts for C03.
+//! Harness contracts for C03: collaborator mocks on the far side of the interfaces the
+//! smart-account library calls (`Verifier`, `Policy`) plus a target that requires the
+//! account's authorization.  None of them contains logic of the code under test.
+
+use soroban_sdk::{auth::Context, contract, contractimpl, contracttype, xdr::ToXdr, Address, Bytes, Env, Symbol, Val, Vec};
+use stellar_accounts::smart_account::{ContextRule, Signer};
+
+// ------------------------------------------------------------------ verifier
+
+/// One logged `verify` call.
+#[contracttype]
+#[derive(Clone, Debug, PartialEq)]
+pub struct VerifyRec {
+    pub payload: Bytes,
+    pub key: Bytes,
+    pub sig: Bytes,
+}
+
+#[contracttype]
+pub enum VKey {
+    Log,
+}
+
+/// `verify` answers by the first byte of `sig_data`: 1 => true, 2 => panic, anything else => false.
+/// Append-only call log (entries of failed top-level invocations are rolled back by the host).
+#[contract]
+pub struct MockVerifier;
+
+pub const SIG_GOOD: u8 = 1;
+pub const SIG_PANIC: u8 = 2;
+pub const SIG_FALSE: u8 = 0;
+
+#[contractimpl]
+impl MockVerifier {
+    pub fn verify(e: Env, payload: Bytes, key_data: Bytes, sig_data: Bytes) -> bool {
+        let mut log: Vec<VerifyRec> = e.storage().persistent().get(&VKey::Log).unwrap_or_else(|| Vec::new(&e));
+        log.push_back(VerifyRec { payload, key: key_data, sig: sig_data.clone() });
+        e.storage().persistent().set(&VKey::Log, &log);
+        match sig_data.get(0) {
+            Some(SIG_GOOD) => true,
+            Some(SIG_PANIC) => panic!("mock verifier: scripted panic"),
+            _ => false,
+        }
+    }
+}
+
+pub fn verifier_log(e: &Env, verifier: &Address) -> Vec<VerifyRec> {
+    e.as_contract(verifier, || e.storage().persistent().get(&VKey::Log).unwrap_or_else(|| Vec::new(e)))
+}
+
+// ------------------------------------------------------------------ policy
+
+/// Scripted behaviour for one (smart account, rule id).
+#[contracttype]
+#[derive(Clone, Debug, PartialEq)]
+pub struct PolicyScript {
+    /// scripted `can_enforce` answer
+    pub can: bool,
+    /// additionally require at least this many authenticated signers (0 = no requirement)
+    pub need: u32,
+    /// scripted `enforce` outcome: false => panic
+    pub enforce_ok: bool,
+}
+
+/// One logged `enforce` call.
+#[contracttype]
+#[derive(Clone, Debug, PartialEq)]
+pub struct EnforceRec {
+    /// XDR of the `Context` value received (`Context` has no `PartialEq`/`Debug`)
+    pub context: Bytes,
+    pub signers: Vec<Signer>,
+    pub rule_id: u32,
+    pub account: Address,
+}
+
+#[contracttype]
+pub enum PKey {
+    Script(Address, u32),
+    Log,
+    Installed(Address, u32),
+}
+
+#[contract]
+pub struct MockPolicy;
+
+#[contractimpl]
+impl MockPolicy {
+    /// Read-only, as the `Policy` documentation demands.
+    pub fn can_enforce(e: Env, _context: Context, authenticated_signers: Vec<Signer>, context_rule: ContextRule, smart_account: Address) -> bool {
+        let s: Option<PolicyScript> = e.storage().persistent().get(&PKey::Script(smart_account, context_rule.id));
+        match s {
+            Some(s) => s.can && authenticated_signers.len() >= s.need,
+            None => true,
+        }
+    }
+
+    /// State-changing hook; authorized by the smart account (the direct caller) as the docs prescribe.
+    pub fn enforce(e: Env, context: Context, authenticated_signers: Vec<Signer>, context_rule: ContextRule, smart_account: Address) {
+        smart_account.require_auth();
+        let mut log: Vec<EnforceRec> = e.storage().persistent().get(&PKey::Log).unwrap_or_else(|| Vec::new(&e));
+        log.push_back(EnforceRec { context: context.to_xdr(&e), signers: authenticated_signers, rule_id: context_rule.id, account: smart_account.clone() });
+        e.storage().persistent().set(&PKey::Log, &log);
+        let s: Option<PolicyScript> = e.storage().persistent().get(&PKey::Script(smart_account, context_rule.id));
+        if let Some(s) = s {
+            if !s.enforce_ok {
+                panic!("mock policy: scripted enforce refusal");
+            }
+        }
+    }
+
+    pub fn install(e: Env, _install_params: Val, context_rule: ContextRule, smart_account: Address) {
+        e.storage().persistent().set(&PKey::Installed(smart_account, context_rule.id), &true);
+    }
+
+    pub fn uninstall(e: Env, context_rule: ContextRule, smart_account: Address) {
+        e.storage().persistent().remove(&PKey::Installed(smart_account, context_rule.id));
+    }
+}
+
+pub fn policy_set_script(e: &Env, policy: &Address, account: &Address, rule_id: u32, s: &PolicyScript) {
+    e.as_contract(policy, || e.storage().persistent().set(&PKey::Script(account.clone(), rule_id), s));
+}
+pub fn policy_log(e: &Env, policy: &Address) -> Vec<EnforceRec> {
+    e.as_contract(policy, || e.storage().persistent().get(&PKey::Log).unwrap_or_else(|| Vec::new(e)))
+}
+
+// ------------------------------------------------------------------ target
+
+/// `do_it(account, chain)` requires `account`'s authorization and then calls the next target of
+/// `chain` (with the rest of the chain), so that one authorization entry of the account covers a
+/// tree of 1..3 contract-call contexts.
+#[contract]
+pub struct Target;
+
+#[contracttype]
+pub enum TKey {
+    Calls,
+}
+
+#[contractimpl]
+impl Target {
+    pub fn do_it(e: Env, account: Address, chain: Vec<Address>) -> u32 {
+        account.require_auth();
+        let n: u32 = e.storage().persistent().get(&TKey::Calls).unwrap_or(0);
+        e.storage().persistent().set(&TKey::Calls, &(n + 1));
+        if let Some(next) = chain.first() {
+            let rest = chain.slice(1..);
+            let args: Vec<Val> = soroban_sdk::vec![&e, soroban_sdk::IntoVal::into_val(&account, &e), soroban_sdk::IntoVal::into_val(&rest, &e)];
+            let _: u32 = e.invoke_contract(&next, &Symbol::new(&e, "do_it"), args);
+        }
+        n + 1
+    }
+}
+
+pub fn target_calls(e: &Env, target: &Address) -> u32 {
+    e.as_contract(target, || e.storage().persistent().get(&TKey::Calls).unwrap_or(0))
+}
